@@ -26,6 +26,50 @@ NOT_APPLICABLE = {
 }
 
 CHECKS = {
+    "C10": {
+        "engine": "c10_glbfloor",
+        "design_ref": "DESIGN.md 4.7",
+        "technique": "deterministic simulation of the two-process computation library <-> apm solver: fault injection at the "
+                     "subprocess seam (solver killed, @error, truncated or lost result files, ENOSPC) in seeded solves of the "
+                     "refine/optimise loop; feasibility oracle on every returned (die, allocation)",
+        "text": "Seeded search over instances (small dies with blockages and fixed regions, netlists mixing soft, hard, "
+                "flippable and fixed modules, thresholds, trade-offs, iteration limits) and over fault sequences at the solver "
+                "process boundary. Whenever glbfloor returns, cells must not overlap and lie in the die, ratios in [0,1], no "
+                "cell above 100%, centres in the die, fixed modules untouched and owning their cells, hard modules only "
+                "translated or mirrored. With a fault injected, raising is fine; returning infeasible values is the violation. "
+                "Sampling, not proof.",
+        "note": "The apm/IPOPT binary and GEKKO run real; SimSolver only alters what crosses the process boundary after the "
+                "real solve. Instances on which the solver finds no solution raise and are tallied as 'did not return'.",
+    },
+    "C13": {
+        "engine": "c13_force",
+        "design_ref": "DESIGN.md 4.6",
+        "technique": "deterministic simulation across worlds: the same instance run in a fresh child, in children with seeded "
+                     "prior FRAME histories / re-seeded global random / GC disabled or forced, and in fresh interpreters under "
+                     "other PYTHONHASHSEED values; bit-identical centres required; per-world oracles and an independent "
+                     "arg-min reference over the twelve spring constants",
+        "text": "Seeded search over instances and over ambient conditions the simulator controls (prior history in the "
+                "process, global random state, garbage-collector regime, hash seed). Every world must return bit-identical "
+                "centres and leave the global random state untouched; in every world fixed modules stay, centres are finite "
+                "and inside the die, nothing but centres changes, and force_algorithm returns exactly the layout of the spring "
+                "constant with the first strictly smallest cost. Sampling, not proof.",
+        "note": "Fixed centres are compared within 1e-12 * die size (re-centring costs one rounding), everything else exactly. "
+                "The cost uses the library's functions for the arg-min and an independent formula as a cross-check.",
+    },
+    "C14": {
+        "engine": "c14_spectral",
+        "design_ref": "DESIGN.md 4.5",
+        "technique": "deterministic simulation with the simulator owning the random module of the spectral algorithm: many "
+                     "honest Mersenne-Twister seeds and low-entropy quantised draw schedules per netlist, draw counting, "
+                     "disc-containment / rigidity / invariance oracles",
+        "text": "The property is quantified over schedules of the random start: each generated netlist (>=4 movable modules, "
+                "connected, discs fit) is placed under 4-10 seeds with 0-4 trials; every honest seed must return with every "
+                "movable disc inside the die, fixed modules untouched, hard modules translated rigidly, areas and nets "
+                "unchanged, and exactly 2 x unknown coordinates x trials draws consumed. Failures only reachable with "
+                "quantised draws are logged as unrealised degenerate starts. Sampling, not proof.",
+        "note": "Containment tolerance 1e-9 * max(W,H). Terminals are outside C14's quantifier (soft, hard, fixed) and are not "
+                "generated (spectral_layout divides by the zero area of an unfixed terminal - noted in DESIGN.md).",
+    },
     "C20": {
         "engine": "c20_history",
         "design_ref": "DESIGN.md 4.1",
